@@ -138,6 +138,14 @@ impl Scen {
             ops: x.nth(2).list().iter().map(|o| (o.nth(0).int().clamp(0, 4) as u8, o.nth(1).int().max(0) as usize, o.nth(2).int().clamp(0, 9) as u8)).collect(),
         }
     }
+    fn to_sx_free(&self) -> Sx {
+        let mut v = match self.to_sx(&[]) {
+            Sx::L(v) => v,
+            x => vec![x],
+        };
+        v.push(a(1));
+        l(v)
+    }
     fn to_sx(&self, sched: &[usize]) -> Sx {
         l(vec![
             l(self.mem.iter().map(|k| a(*k as i64)).collect()),
@@ -404,6 +412,33 @@ impl Ctx {
         Ok((actual, enabled, results, sites, files))
     }
 
+    /// the threads started together, no scheduler: the operating system interleaves them
+    fn run_free(&self, sc: &Scen) -> Result<(Vec<Got>, Vec<i64>), String> {
+        for op in &sc.ops {
+            let _ = self.solo(sc, *op);
+        }
+        let store = self.build(sc)?;
+        let barrier = std::sync::Barrier::new(sc.ops.len());
+        let mut results: Vec<Got> = Vec::new();
+        std::thread::scope(|scope| {
+            let mut handles = Vec::new();
+            for op in sc.ops.iter() {
+                let store_ref = &store;
+                let bar = &barrier;
+                let op = *op;
+                handles.push(scope.spawn(move || {
+                    bar.wait();
+                    guard(|| run_op(store_ref, sc, op)).unwrap_or(Got { tokens: vec![-1], text: String::new() })
+                }));
+            }
+            for h in handles {
+                results.push(h.join().unwrap_or(Got { tokens: vec![-1], text: String::new() }));
+            }
+        });
+        let files = self.file_status(sc);
+        Ok((results, files))
+    }
+
     fn observe(&self, sc: &Scen, results: &[Got], files: &[i64]) -> Vec<Sx> {
         let mut v: Vec<Sx> = results
             .iter()
@@ -422,6 +457,15 @@ impl Ctx {
         if !sc.well_formed() {
             // not a scenario: the empty scenario (no members, no threads) stands in for it
             return (l(vec![]), vec![l(vec![])], false);
+        }
+        if req.nth(4).int() != 0 {
+            return match self.run_free(&sc) {
+                Ok((results, files)) => (sc.to_sx_free(), self.observe(&sc, &results, &files), sc.ops.len() >= 2 && sc.mem.iter().any(|k| standoff(*k))),
+                Err(m) => {
+                    eprintln!("C20 harness: scenario could not be built: {}", m);
+                    (req.clone(), sc.ops.iter().map(|_| l(vec![l(vec![a(-6)]), a(0), a(1)])).chain(std::iter::once(l(vec![a(-6)]))).collect(), false)
+                }
+            };
         }
         let want: Vec<usize> = req.nth(3).list().iter().map(|v| v.int().max(0) as usize).collect();
         match self.run_sched(&sc, |k, en| if k < want.len() { want[k] } else { en[0] }) {
@@ -682,9 +726,8 @@ pub fn generate(out: &mut Out, tier: &str, seed: u64) {
     let mut rng = Rng::new(seed);
     let mut incomplete = 0u64;
 
-    // A. every store with one member, both flags; every unordered pair of calls.
-    //    quick: all schedules for the pairs without the unrelated-Config call (the largest pair
-    //    has 3642 schedules), random schedules for the others; thorough: all schedules of all pairs
+    // A. every store with one member, both flags; every unordered pair of calls: all schedules
+    //    (the largest pair has 3642)
     let mut one: Vec<(Vec<u8>, Vec<bool>)> = Vec::new();
     for k in 0..=4u8 {
         one.push((vec![k], vec![false]));
@@ -702,11 +745,6 @@ pub fn generate(out: &mut Out, tier: &str, seed: u64) {
                 }
                 let sc = Scen { mem: mem.clone(), chg: chg.clone(), ops: vec![pool[x], pool[y]] };
                 out.count_n("scenarios_two_threads", 1);
-                let foreign = pool[x].0 == 4 || pool[y].0 == 4;
-                if foreign && !thorough {
-                    sample(&ctx, out, &sc, &mut rng, 25, "two_threads_random_schedule");
-                    continue;
-                }
                 let e = explore(&ctx, out, &sc, cap, "two_threads_all_schedules");
                 if !e.complete {
                     incomplete += 1;
@@ -794,6 +832,27 @@ pub fn generate(out: &mut Out, tier: &str, seed: u64) {
         sample(&ctx, out, &sc, &mut rng, if thorough { 30 } else { 12 }, "larger_store_random_schedule");
         out.count_n("scenarios_random", 1);
     }
+    // D. free runs: the same calls on threads started together without the scheduler, so that the
+    //    operating system pre-empts them anywhere (no schedule to replay; every outcome must be solo)
+    let nfree = if thorough { 4000 } else { 600 };
+    for n in 0..nfree {
+        let mem: Vec<u8> = match n % 4 {
+            0 => vec![4],
+            1 => vec![1, 4],
+            2 => vec![2, 4, 4],
+            _ => vec![0, 1, 2, 3, 4],
+        };
+        let chg: Vec<bool> = mem.iter().map(|k| standoff(*k) && rng.chance(2, 3)).collect();
+        let pool = op_pool(&mem, &[0, 1, 2, 3]);
+        let nthreads = 2 + rng.below(3);
+        let ops: Vec<(u8, usize, u8)> = (0..nthreads).map(|_| if rng.chance(1, 2) { (1, 0, 0) } else { *rng.pick(&pool) }).collect();
+        let sc = Scen { mem, chg, ops };
+        let req = sc.to_sx_free();
+        let (i, o, nt) = ctx.exec(&req);
+        out.case(&i, &o, nt, &req);
+        out.count("free_run");
+    }
+
     if incomplete > 0 {
         // the pool announced as exhaustive in RULE was not enumerated completely: the evidence
         // must not say it was
@@ -801,6 +860,6 @@ pub fn generate(out: &mut Out, tier: &str, seed: u64) {
     }
 }
 
-pub const RULE: &str = "Deterministic scheduler over real threads holding &AnnotationStore (blocked at the stam_verif yield points before every access to the serialisation mode and the changed flags; one thread runs at a time). A: for every store with one member (inline/plain-text stand-off/.json stand-off resource, inline/stand-off dataset; changed flag clear and set) and every store with one resource and one dataset (5 kind combinations x all flag combinations), every unordered pair of calls out of {store.to_json_string, ToJson::to_json_string(member, store config), inherent member.to_json_string(), ToJson::to_json_string(member, unrelated Config) for each member, pure readers (annotation iteration, find_text + reverse lookups, query, .parallel())}: ALL schedules enumerated depth-first by re-execution (a pair whose schedules exceed the cap - 6000 quick, 400000 thorough - is counted under scenarios_capped and completed with 200 random schedules). B: three threads on one-member stores: random schedules (quick), all schedules (thorough). C: random stores of up to 2+2 members with 2-3 random calls under random schedules. Every execution rebuilds the store and its stand-off files under .cache/work/c20/. Per thread: the member forms in the string it obtained, equality of the whole string with the solo string, compared with the specified solo result and with the model's prediction for the executed schedule. Non-trivial: a stand-off member exists and at least two threads were scheduled twice or more. distinct = distinct (scenario, schedule) lines.";
+pub const RULE: &str = "Deterministic scheduler over real threads holding &AnnotationStore (blocked at the stam_verif yield points before every access to the serialisation mode and the changed flags; one thread runs at a time); every execution rebuilds the store and its stand-off files under .cache/work/c20/. A (exhaustive, both tiers): for every store with one member (inline / plain-text stand-off / .json stand-off resource, inline / stand-off dataset; changed flag clear and set: 8 stores) every unordered pair of calls out of {store.to_json_string, ToJson::to_json_string(member, store config), inherent member.to_json_string(), ToJson::to_json_string(member, unrelated Config), pure readers: annotation iteration, find_text + reverse lookups, query, .parallel() through rayon}: ALL schedules, enumerated depth-first by re-execution (the generator fails if a pair exceeds the cap). A2: stores with one resource and one dataset (5 kind combinations x all flag combinations): quick = all schedules (up to 800, else + 100 random) for pairs of {store serialisation, ToJson(dataset)}, 10 random schedules for the other pairs; thorough = all schedules up to 60000 per pair. B: three threads on one-member stores: 30 random schedules per triple (quick), all schedules up to 20000 (thorough). C: random stores of up to 2+2 members with 2-3 random calls under random schedules. D: free runs - 2-4 threads started together WITHOUT the scheduler (real pre-emption) on stores of 1-5 members. Per thread: the member forms in the string it obtained and equality of the whole string with the string the same call returns alone on an identical store, compared with the specified solo result and with the model's prediction for the executed schedule; per run: whether every stand-off file still holds its member's content. Non-trivial: a stand-off member exists and at least two threads were scheduled twice or more. distinct = distinct (scenario, schedule) lines.";
 
 pub const EXHAUSTIVE: bool = true;
